@@ -292,8 +292,14 @@ def _exec_enc(f):
     if fam == "pad":
         res["pack"] = tok(lambda: keep(bitstring.pack(pf)), fmt)
     else:
-        res["pack"] = merge([tok(lambda: keep(bitstring.pack(pf, vv())), fmt),
-                             tok(lambda: keep(bitstring.pack([pf], vv())), fmt)])
+        ps = [tok(lambda: keep(bitstring.pack(pf, vv())), fmt),
+              tok(lambda: keep(bitstring.pack([pf], vv())), fmt),
+              # value (and length) supplied through keyword arguments named in the format
+              tok(lambda: keep(bitstring.pack(pf + "=v_", v_=vv())), fmt)]
+        if ln is not None:
+            ps.append(tok(lambda: keep(bitstring.pack(f"{name}:n_=v_", n_=ln, v_=vv())), fmt))
+            ps.append(tok(lambda: keep(bitstring.pack(f"{name}:n_", vv(), n_=ln)), fmt))
+        res["pack"] = merge(ps)
     toks = [res[r] for r in ROUTES]
     # read the primary result back through the plain property (value round trip)
     try:
